@@ -9,6 +9,7 @@
 -/
 import DiplomatModel.Lemmas.JsLayout
 import DiplomatModel.Lemmas.Memory
+import DiplomatModel.Lemmas.Slots
 namespace DiplomatModel.Props.C08
 open DiplomatModel.JsLayout DiplomatModel.Memory
 
@@ -191,5 +192,57 @@ theorem write_read_roundtrip (fs : List (Nat × Nat × SC)) (hne : fs ≠ []) (h
   exact read_after_writeFields m _ 0 (good_ordered fs _ vals 0 hg hl hs)
 
 example : readAt (writeFields (fun _ => 0xAA) [(0, [1]), (4, [2, 3, 4, 5]), (8, [6, 7])]) 4 4 = [2, 3, 4, 5] := by decide
+
+/-! ### the flattened argument list (legacy ABI, "padded direct") -/
+
+/-- **Typed padding accounts for every gap.** In one struct, the field sizes plus the padding fields
+    `struct_field_info` attaches to them (`padding_count` fields of `padding_field_width` bytes each) add up to the
+    struct's size — for every field list whose alignments are powers of two and whose sizes are multiples of them.
+    (The count is an integer division of the gap by the previous field's alignment; the theorem shows it never
+    truncates.) -/
+theorem typed_padding_fills_gaps (ls : List (Nat × Nat × SC)) (hne : ls ≠ [])
+    (hwf : ∀ f ∈ ls, Pow2 f.2.1 ∧ f.2.1 ∣ f.1) :
+    sizeSum ls + padSum (fieldInfoOf ls).fields = (fieldInfoOf ls).size :=
+  tile_one_level ls hne hwf
+
+/-- **The padded-direct argument list covers the whole struct.** For a struct `fs` (nested to any depth, with
+    options, slices and scalars of power-of-two alignment) whose padding is emitted at every level (`padOKList`:
+    a two-scalar struct emits its padding only when its caller forces it), the widths of the slots `_intoFFI`
+    spreads into the call — leaves, typed padding zeros, option chunks, option flags — add up to the struct's size:
+    every byte of the `repr(C)` value is represented in the call exactly once, as the LLVM aggregate type
+    (fields and padding arrays) requires. -/
+theorem arg_slots_tile (fs : List LTy) (force : Bool) (info : Info) (ls : List (Nat × Nat × SC)) (sl : List Slot)
+    (hne : fs ≠ []) (hwf : WFList fs) (hi : structFieldInfo fs = some info) (hls : layoutList fs = some ls)
+    (hp : info.sc ≠ .scalars 2 ∨ force = true) (hok : padOKList fs ls info.sc force = true)
+    (hs : argSlots fs force = some sl) :
+    slotsWidth sl = info.size := by
+  have hi' : info = fieldInfoOf ls := by
+    simp [structFieldInfo, hls] at hi; exact hi.symm
+  subst hi'
+  have hsi : structFieldInfo fs = some (fieldInfoOf ls) := by simp [structFieldInfo, hls]
+  simp only [argSlots, hsi, hls] at hs
+  have hlen := layoutList_length fs ls hls
+  have hne' : ls ≠ [] := by
+    intro h0; rw [h0] at hlen
+    exact hne (List.length_eq_zero_iff.mp hlen.symm)
+  rw [fieldsSlots_tile fs (fieldInfoOf ls).fields ls (fieldInfoOf ls).sc force sl hwf hok hp hls
+    (by rw [fieldInfo_fields_length, hlen]) hs]
+  exact tile_one_level ls hne' (layoutList_wf fs ls hwf hls)
+
+/-- non-vacuity: `struct { a: Pair{u8,u32}, b: u16, c: DiplomatOption<u16>, d: u64 }`-like shapes meet the premises -/
+example : padOKList [.struct [.scalar 1 1, .scalar 4 4], .scalar 2 2, .scalar 8 8]
+    [(8, 4, .scalars 2), (2, 2, .scalars 1), (8, 8, .scalars 1)] (.scalars 4) false = true := by decide
+example : argSlots [.struct [.scalar 1 1, .scalar 4 4], .scalar 2 2, .scalar 8 8] false
+    = some [.leaf 1, .pad 1, .pad 1, .pad 1, .leaf 4, .leaf 2, .pad 2, .pad 2, .pad 2, .leaf 8] := by decide
+
+/-- **Finding F32 (witness).** A two-scalar struct next to a `DiplomatOption` field: the parent's scalar count is
+    "memory", for which `forcePadding` answers `noForce`, so the pair is spread *without* its three padding bytes and
+    the argument list no longer covers the struct (13 bytes of slots for a 16-byte value), although a struct holding
+    a union is always passed in the padded form (docs/wasm_abi_quirks.md, "Unions in parameters"). -/
+example : argSlots [.struct [.scalar 1 1, .scalar 4 4], .opt (.scalar 4 4)] false
+    = some [.leaf 1, .leaf 4, .chunk 4, .flag, .pad 1, .pad 1, .pad 1] := by decide
+example : (structFieldInfo [.struct [.scalar 1 1, .scalar 4 4], .opt (.scalar 4 4)]).map (·.size) = some 16 := by decide
+example : padOKList [.struct [.scalar 1 1, .scalar 4 4], .opt (.scalar 4 4)]
+    [(8, 4, .scalars 2), (8, 4, .memory)] .memory false = false := by decide
 
 end DiplomatModel.Props.C08
